@@ -936,6 +936,12 @@ pub fn sweep_twin(opts: &Opts) -> i32 {
                     if format!("{board:?}") != format!("{twin:?}") || format!("{board:#?}") != format!("{twin:#?}") || board != twin {
                         t.mismatch("C03", "twin-debug-or-eq", &case, json!(format!("{twin:?}")), json!(format!("{board:?}")));
                     }
+                    // C05: the incremental builder, fed the projected fields, assembles the identical board
+                    match build_from_pos(&a["pos"]) {
+                        Ok(built) if same_board(&built, &board) && built.to_string() == text => {}
+                        other => t.mismatch("C05", "builder-differs-from-moved-board", &case, json!(text),
+                                            json!(other.map(|x| x.to_string()))),
+                    }
                     let tags = classify_pos(&board, &codes_of(&a["legals"]));
                     if !tags.is_empty() {
                         t.nontrivial.insert(text.clone());
